@@ -59,6 +59,7 @@ type simConn struct {
 
 	written      []byte
 	writeStall   bool // the peer's window is closed: writes block
+	writeDelay   time.Duration // the peer's window opens only after this long (first write)
 	writeTimeout int
 	closed       bool
 }
@@ -141,6 +142,16 @@ func (c *simConn) Write(p []byte) (int, error) {
 		}
 		c.writeTimeout++
 		return 0, os.ErrDeadlineExceeded
+	}
+	if c.writeDelay > 0 {
+		d := c.writeDelay
+		c.writeDelay = 0
+		if !c.wrDeadline.IsZero() && time.Now().Add(d).After(c.wrDeadline) {
+			c.wait(time.Until(c.wrDeadline))
+			c.writeTimeout++
+			return 0, os.ErrDeadlineExceeded
+		}
+		c.wait(d)
 	}
 	c.written = append(c.written, p...)
 	return len(p), nil
